@@ -244,6 +244,35 @@ class Run:
         self.viol_detail = getattr(self, 'viol_detail', []) + [
             '%s: %s [%s] inputs=%s replay=%s' % (ident, first.name, first.desc[:100], fmt_inputs(inputs), (rtxt or '')[:200])]
 
+    def extraction_break_fallback(self, unit, inst, err):
+        """The changed source no longer fits the extraction rules, so no obligation can be generated for this unit (UNDECIDED).
+        As a bounded stand-in the unit's native replay driver is run over its built-in search window on the REAL code: a failure it
+        reproduces is a genuine failing input and is reported as a violation (never counted as proof when it finds nothing)."""
+        if not unit.replay or not unit.checks:
+            return
+        ran = getattr(self, '_fallback_done', set())
+        if (unit.name, inst[0]) in ran:
+            return
+        ran.add((unit.name, inst[0]))
+        self._fallback_done = ran
+        check = next((c for c in unit.checks if c.engine != 'N'), unit.checks[0])
+        try:
+            rep, txt = self.native_replay(unit, inst, check, {}, 'extraction-break')
+        except Undecided:
+            return
+        if not rep:
+            return
+        rdir = os.path.join(VERIF, 'replays', self.prop)
+        os.makedirs(rdir, exist_ok=True)
+        rpath = os.path.join(rdir, '%s.%s.extraction_break.json' % (unit.name, inst[0]))
+        with open(rpath, 'w') as f:
+            json.dump(dict(property=self.prop, unit=unit.name, instantiation=inst[0], inst_macros=inst[2], check='native window after an extraction break', engine='N',
+                           failed_obligations=[dict(name='extraction_break.native_window', status='FAILURE', **{'class': 'bounded'},
+                                                    description='the unit could not be extracted from the changed source (%s); its native search window on the real code reproduces a failure' % err[:300])],
+                           inputs={}, native_replay=dict(reproduced=True, output=txt), verifier_output=[dict(name='extraction', description=err[:600])]), f, indent=1, default=str)
+        self.violations.append('VIOLATION property=%s replay=%s' % (self.prop, rpath))
+        self.viol_detail = getattr(self, 'viol_detail', []) + ['%s.%s: extraction break, native window reproduces: %s' % (unit.name, inst[0], (txt or '')[:200])]
+
     def known_carve(self, unit, inst, check, kf, failed):
         """KNOWN-FINDING protocol (DESIGN 7): the stored witness must still fail on the real code and
         the obligation must be provable once the recorded failing set is excluded."""
@@ -291,6 +320,7 @@ class Run:
         for (u, inst), path, err in core.pool_map(prep, prepped):
             if err:
                 self.undecided.append('%s/%s: %s' % (u.name, inst[0], err))
+                self.extraction_break_fallback(u, inst, err)
                 continue
             for c in u.checks:
                 if c.tier in tiers:
@@ -311,6 +341,8 @@ class Run:
         for (u, inst, c, res, err) in core.pool_map(self.run_check, jobs):
             if err:
                 self.undecided.append('%s/%s/%s: %s' % (u.name, inst[0], c.name, err))
+                if 'goto-cc failed' in err or 'does not compile' in err or 'must-fire rule' in err:
+                    self.extraction_break_fallback(u, inst, err)
                 continue
             self.results.append((u, inst, c, res, None))
             try:
